@@ -44,8 +44,9 @@ namespace Givaro {
     inline typename MOD::Element&
     MOD::init (Element& x, const Source y) const
     {
-        x = Caster<Element>((y<0 ? -y : y) % Source(_p));
-        return (y < 0 ? negin(x) : x);
+        const Source r = y % Source(_p);
+        x = Caster<Element>(r < 0 ? -r : r);
+        return (r < 0 ? negin(x) : x);
     }
 
     TMPL
